@@ -583,6 +583,13 @@ func calculateHashes(numLeaves uint64, delHashes []Hash, proof Proof) (hashAndPo
 		maxPos, _ := maxPositionAtRow(row, totalRows, numLeaves)
 		for provePos > maxPos {
 			row++
+			if row > totalRows {
+				// The position is bigger than every position on every
+				// row. It cannot exist in this forest.
+				return hashAndPos{}, nil, fmt.Errorf("invalid proof. Position %d "+
+					"doesn't exist in an accumulator with %d leaves",
+					provePos, numLeaves)
+			}
 			maxPos, _ = maxPositionAtRow(row, totalRows, numLeaves)
 		}
 
